@@ -226,7 +226,7 @@ def module(t, body, nvals):
     if NOISE[0] is not None and not getattr(t, '_noised', False):
         t._noised = True
         add_noise(t, NOISE[0][1], NOISE[0][0])
-    ty = ('pub mod ty {\n    #![deny(warnings)]\n    #![allow(dead_code, unused_imports, non_snake_case)]\n    use crate::support::{A, B, C, Good, Bad, m_eq, m_cmp, m_pcmp, m_hash, m_fmt, m_clone, m_clone_c, m_into, g_eq, g_cmp, g_pcmp, g_hash, g_fmt};\n'
+    ty = ('pub mod ty {\n    #![deny(warnings)]\n    #![allow(dead_code, unused_imports, non_snake_case)]\n    use crate::support::{A, B, C, N, Fl, Good, Bad, m_eq, m_cmp, m_pcmp, m_hash, m_fmt, m_clone, m_clone_c, m_into, g_eq, g_cmp, g_pcmp, g_hash, g_fmt};\n'
           '    use educe::Educe;\n%s%s\n}\npub use ty::T;' % (HOSTILE_ITEMS if HOSTILE[0] else '', type_decl(t)))
     return ('// %s\n#![allow(dead_code, unused_variables, unused_mut, unused_imports, non_shorthand_field_patterns, clippy::all)]\n'
             'use crate::support::*;\nuse core::cmp::Ordering;\n%s\n%s\n' % (t.id, ty, body))
@@ -651,6 +651,9 @@ DEF_TYPES = [  # (rust type, [(attribute value text, expected expr)], plain defa
     ('char', [("'x'", "'x'")], "'\\0'"),
     ("&'static str", [('"hi"', '"hi"')], '""'),
     ('String', [('"hi"', 'String::from("hi")'), ('String::from("yo")', 'String::from("yo")')], 'String::new()'),
+    ('N', [('-4', 'N(-4)'), ('6', 'N(6)'), ('-19', 'N(-19)')], 'N(77)'),
+    ('Fl', [('-0.5', 'Fl(-0.5)'), ('2.5', 'Fl(2.5)')], 'Fl(0.25)'),
+    ('f64', [('-3', '-3f64'), ('-8', '-8f64')], '0f64'),
     ('A<0>', [('A(9)', 'A(9)')], 'A(40)'),
     ('A<3>', [('A(9)', 'A(9)')], 'A(43)'),
     ('i128', [('77', '77i128')], '0i128'),
